@@ -21,12 +21,19 @@ var c02Tokens = []string{"a", ".", "..", ".a", "\r\n", "\n", "\r", "\x00", "\xff
 
 var c02Big = map[string]string{"LONG": strings.Repeat("L", 70000), "LONGDOTS": strings.Repeat(".", 9000), "P4096": strings.Repeat("p", 4096)}
 
+// c02Lines: whole lines that look like something a mail server might want to tidy up - trace and
+// envelope header fields, mbox "From " lines, folded continuations - placed in the header block
+// and in the body: they are content like any other.
+var c02Lines = []string{"Return-Path: <r@o.test>\r\n", "Received: from x by y; Thu, 1 Jan 1970 00:00:00 +0000\r\n", "From me Thu Jan  1 00:00:00 1970\r\n",
+	">From me\r\n", "X-Spam-Flag: YES\r\n", " folded continuation\r\n", "\r\n", "plain text line\r\n", "return-path: lower case\r\n", "Bcc: hidden@o.test\r\n"}
+
 const c02Header = "From: s@o.test\r\nTo: c02@x.test\r\nSubject: c02\r\n\r\n"
 
 type c02Case struct {
 	Backend string `json:"backend"`
 	Header  bool   `json:"header"`
 	Tokens  []int  `json:"tokens,omitempty"`
+	Lines   []int  `json:"lines,omitempty"`  // indices into c02Lines
 	Ladder  int    `json:"ladder,omitempty"` // size-ladder case: body of this many bytes
 	FinalNL bool   `json:"final_nl,omitempty"`
 	MaxKB   int    `json:"maxkb,omitempty"` // memory store with a size limit: a message is kept whole or not at all
@@ -55,6 +62,9 @@ func (cas c02Case) body() string {
 			b.WriteString("\r\n")
 		}
 		return b.String()
+	}
+	for _, l := range cas.Lines {
+		b.WriteString(c02Lines[l])
 	}
 	for _, t := range cas.Tokens {
 		if big, ok := c02Big[c02Tokens[t]]; ok {
@@ -335,6 +345,19 @@ func c02Run(c *fw.Ctx) {
 				}
 			}
 			gen([]int{}, 0)
+			var genL func(cur []int)
+			genL = func(cur []int) {
+				if len(cur) > 0 {
+					run(c02Case{Backend: be, Header: hdr, Lines: append([]int{}, cur...)})
+				}
+				if len(cur) == 3 {
+					return
+				}
+				for t := range c02Lines {
+					genL(append(cur, t))
+				}
+			}
+			genL(nil)
 			for _, sz := range []int{1, 4095, 4096, 4097, 65535, 65536, 65537, 1 << 20, 4 << 20} {
 				for _, nl := range []bool{true, false} {
 					run(c02Case{Backend: be, Header: hdr, Ladder: sz, FinalNL: nl, Show: "ladder"})
